@@ -18,6 +18,7 @@ import (
 	"strconv"
 	"strings"
 	"sync"
+	"syscall"
 	"time"
 )
 
@@ -518,9 +519,14 @@ func (r *Run) Finish() {
 		"property_id": r.ID, "tier": r.Tier, "seed": r.Seed, "level": r.Level,
 		"coverage": cov, "assumptions": r.Assume, "wall_s": wall, "violations": len(newV),
 	}
-	os.MkdirAll(filepath.Join(Root(), "evidence"), 0o755)
+	evdir := filepath.Join(Root(), "evidence")
+	rpdir := filepath.Join(Root(), "replay")
+	if d := os.Getenv("VERIF_EVIDENCE_DIR"); d != "" {
+		evdir, rpdir = d, filepath.Join(d, "replay")
+	}
+	os.MkdirAll(evdir, 0o755)
 	b, _ := json.MarshalIndent(ev, "", " ")
-	evp := filepath.Join(Root(), "evidence", r.ID+".json")
+	evp := filepath.Join(evdir, r.ID+".json")
 	os.WriteFile(evp+".tmp", b, 0o644)
 	os.Rename(evp+".tmp", evp)
 
@@ -567,9 +573,9 @@ func (r *Run) Finish() {
 		}
 	}
 	if len(newV) > 0 {
-		os.MkdirAll(filepath.Join(Root(), "replay"), 0o755)
+		os.MkdirAll(rpdir, 0o755)
 		for i, v := range newV {
-			p := filepath.Join(Root(), "replay", fmt.Sprintf("%s-%d.json", r.ID, i))
+			p := filepath.Join(rpdir, fmt.Sprintf("%s-%d.json", r.ID, i))
 			rb, _ := json.MarshalIndent(map[string]interface{}{
 				"property": r.ID, "fingerprint": v.Fingerprint, "what": v.What, "case": v.Case, "tier": r.Tier,
 			}, "", " ")
@@ -619,4 +625,15 @@ func Norm(s string, max int) string {
 		t = t[:max]
 	}
 	return t
+}
+
+// QuietStderr redirects file descriptor 2 to a log file under .work/<id>/ (third-party libraries
+// such as badger log to stderr unconditionally).
+func (r *Run) QuietStderr() {
+	dir := filepath.Join(Root(), ".work", strings.ToLower(r.ID))
+	os.MkdirAll(dir, 0o755)
+	f, err := os.OpenFile(filepath.Join(dir, "stderr.log"), os.O_CREATE|os.O_WRONLY|os.O_TRUNC, 0o644)
+	if err == nil {
+		syscall.Dup2(int(f.Fd()), 2)
+	}
 }
